@@ -39,6 +39,7 @@ type TierCfg struct {
 	BudgetS  int               `json:"budget_s"`  // per worker: stop starting new runs after this
 	TimeoutS int               `json:"timeout_s"` // watchdog per worker process
 	Params   map[string]string `json:"params"`
+	RaceRuns int               `json:"race_runs"` // >0: additionally run this many runs free-running under the race detector (runtime monitor, params mode=race)
 }
 
 type Check struct {
@@ -57,6 +58,7 @@ type Check struct {
 	Quick       TierCfg  `json:"quick"`
 	Thorough    TierCfg  `json:"thorough"`
 	MinBudget   int      `json:"min_budget"` // max replays spent minimising one signature
+	Also        []string `json:"also"`       // further check configurations (ids in checks.json) that belong to the same property: run after the main one, reported under this id, coverage merged
 }
 
 type Violation struct {
@@ -574,6 +576,8 @@ func cmdCheck(args []string) int {
 	keep := fs.Bool("keep", false, "keep the work directory")
 	noEvidence := fs.Bool("no-evidence", false, "do not write the evidence file")
 	workers := fs.Int("workers", 16, "worker processes")
+	reportAs := fs.String("report-as", "", "internal: report violations and findings under this property id")
+	covOut := fs.String("cov-out", "", "internal: write the coverage object to this file")
 	sigF := fs.String("sig", "", "experiments: only minimise/report new signatures containing this substring")
 	paramF := fs.String("param", "", "extra harness parameters k=v[,k=v] (experiments; implies --no-evidence)")
 	repoF := fs.String("repo", "", "build from this tree instead of /repo (scratch worktrees for sensitivity experiments; implies --no-evidence and a separate work dir)")
@@ -628,6 +632,11 @@ func cmdCheck(args []string) int {
 		tc.Batch = (tc.Runs + *workers - 1) / *workers
 	}
 	known := loadKnown()
+	repID := id
+	if *reportAs != "" {
+		repID = *reportAs
+		*noEvidence = true
+	}
 	t0 := time.Now()
 	work := filepath.Join(workRoot, id+"-"+*tier+workTag)
 	bin, census := build(c, work)
@@ -730,7 +739,7 @@ func cmdCheck(args []string) int {
 
 	knownSig := map[string]Finding{}
 	for _, f := range known.Findings {
-		if f.Property == id {
+		if f.Property == repID {
 			knownSig[f.Signature] = f
 		}
 	}
@@ -741,7 +750,7 @@ func cmdCheck(args []string) int {
 	for _, sig := range sigOrder {
 		if f, ok := knownSig[sig]; ok {
 			knownHit[sig] = len(bySig[sig])
-			fmt.Printf("KNOWN-FINDING: property=%s %s — %s (seen in %d of %d runs)\n", id, sig, f.What, len(bySig[sig]), len(recs))
+			fmt.Printf("KNOWN-FINDING: property=%s %s — %s (seen in %d of %d runs)\n", repID, sig, f.What, len(bySig[sig]), len(recs))
 			continue
 		}
 		if *sigF != "" && !strings.Contains(sig, *sigF) {
@@ -802,13 +811,104 @@ func cmdCheck(args []string) int {
 		os.WriteFile(path, b, 0o644)
 		fmt.Printf("violation: %s\n  %s\n  seen in %d of %d runs; minimised tape %d -> %d entries (%d non-zero) in %d replays\n",
 			sig, firstLines(min.Detail, 12), len(bySig[sig]), len(recs), n0, n1, nz1, tests)
-		fmt.Printf("VIOLATION property=%s replay=%s\n", id, path)
+		fmt.Printf("VIOLATION property=%s replay=%s\n", repID, path)
 		exit = 1
+	}
+
+	// further configurations of the same property
+	alsoCov := map[string]any{}
+	for _, aid := range c.Also {
+		covFile := filepath.Join(work, "out", "also-"+aid+".json")
+		args := []string{"check", aid, "--tier", *tier, "--seed", strconv.FormatUint(seed, 10), "--report-as", repID, "--cov-out", covFile, "--workers", strconv.Itoa(*workers)}
+		if *repoF != "" {
+			args = append(args, "--repo", *repoF)
+		}
+		cmd := exec.Command(os.Args[0], args...)
+		cmd.Stdout, cmd.Stderr = os.Stdout, os.Stderr
+		err := cmd.Run()
+		rc := 0
+		if err != nil {
+			rc = 2
+			if ee, ok := err.(*exec.ExitError); ok {
+				rc = ee.ExitCode()
+			}
+		}
+		if rc == 2 || rc > 2 {
+			os.RemoveAll(work)
+			return 2
+		}
+		if rc == 1 {
+			exit = 1
+			nViol++
+		}
+		if b, err := os.ReadFile(covFile); err == nil {
+			var m map[string]any
+			if json.Unmarshal(b, &m) == nil {
+				alsoCov[aid] = m
+			}
+		}
+	}
+
+	// race monitor (a runtime monitor, not a simulation: free-running goroutines under the race detector)
+	raceInfo := map[string]any{}
+	if tc.RaceRuns > 0 {
+		tR := time.Now()
+		rbin := filepath.Join(work, "race.test")
+		out, err := runCmd(filepath.Join(work, "src"), goEnv(), goRoot+"/bin/go", "test", "-c", "-race", "-trimpath", "-vet=off", "-tags", "verif", "-o", rbin, "./"+c.Place)
+		if err != nil {
+			fmt.Fprintf(os.Stderr, "verif: building the race monitor failed: %v\n%s\n", err, out)
+			os.RemoveAll(work)
+			return 2
+		}
+		logFile := filepath.Join(work, "out", "race.log")
+		cmd := exec.Command(rbin, "-test.run", "^TestVerif$", "-test.timeout", "1500s", "-test.count", "1")
+		cmd.Dir = work
+		cmd.Env = append(os.Environ(), "VERIF_SEED="+strconv.FormatUint(seed, 10), "VERIF_RUN_LO=0", "VERIF_RUN_HI="+strconv.Itoa(tc.RaceRuns),
+			"VERIF_OUT="+filepath.Join(work, "out", "race.jsonl"), "VERIF_TIER="+*tier, `VERIF_PARAMS={"mode":"race"}`, "GOMAXPROCS=8", "GORACE=halt_on_error=0", "VERIF_REPLAY=")
+		lf, _ := os.Create(logFile)
+		cmd.Stdout, cmd.Stderr = lf, lf
+		rerr := cmd.Run()
+		lf.Close()
+		lb, _ := os.ReadFile(logFile)
+		rrecs, _ := readRecords(filepath.Join(work, "out", "race.jsonl"))
+		raceInfo["runs"] = len(rrecs)
+		raceInfo["wall_s"] = time.Since(tR).Seconds()
+		raceInfo["kind"] = "runtime monitor: free-running goroutines under the Go race detector, GOMAXPROCS=8"
+		if i := bytes.Index(lb, []byte("WARNING: DATA RACE")); i >= 0 {
+			rep := lb[i:]
+			if j := bytes.Index(rep[20:], []byte("==================")); j >= 0 {
+				rep = rep[:20+j]
+			}
+			sig := id + "/data-race/" + raceSig(string(rep))
+			if _, ok := knownSig[sig]; ok {
+				fmt.Printf("KNOWN-FINDING: property=%s %s — %s\n", id, sig, knownSig[sig].What)
+			} else {
+				path := filepath.Join(verifDir, "replays", fmt.Sprintf("%s-%d-race-%s.json", id, seed, sigHash(sig)))
+				b, _ := json.MarshalIndent(map[string]any{"property": id, "seed": seed, "signature": sig, "tier": *tier, "params": map[string]string{"mode": "race"},
+					"note": "reported by the race detector in a free-running execution: re-run the same seed under -race; a data race is not a deterministic replay", "detail": string(rep)}, "", " ")
+				os.WriteFile(path, b, 0o644)
+				fmt.Printf("violation: %s\n  %s\n", sig, firstLines(string(rep), 30))
+				fmt.Printf("VIOLATION property=%s replay=%s\n", id, path)
+				exit = 1
+				nViol++
+			}
+			raceInfo["races"] = bytes.Count(lb, []byte("WARNING: DATA RACE"))
+		} else if rerr != nil {
+			t := lb
+			if len(t) > 3000 {
+				t = t[len(t)-3000:]
+			}
+			fmt.Fprintf(os.Stderr, "verif: race monitor process failed: %v\n%s\n", rerr, t)
+			os.RemoveAll(work)
+			return 2
+		} else {
+			raceInfo["races"] = 0
+		}
 	}
 
 	wall := time.Since(t0).Seconds()
 	// evidence
-	if !*noEvidence {
+	{
 		cov := map[string]any{
 			"evaluations":            len(recs),
 			"distinct_nontrivial":    len(keys),
@@ -833,25 +933,59 @@ func cmdCheck(args []string) int {
 			"seeds":                  []uint64{seed},
 			"exhaustive":             false,
 		}
+		if len(raceInfo) > 0 {
+			cov["race_monitor"] = raceInfo
+		}
+		if len(alsoCov) > 0 {
+			cov["further_configurations"] = alsoCov
+		}
 		if len(census) > 0 {
 			cov["seam_census"] = census
 		}
 		if len(samples) == 0 {
 			cov["samples"] = []string{"(no run was non-trivial)"}
 		}
-		ev := map[string]any{
-			"property_id": id, "tier": *tier, "seed": seed, "level": c.Level,
-			"coverage": cov, "assumptions": c.Assumptions, "wall_s": wall, "violations": nViol,
+		if *covOut != "" {
+			cov["assumptions"] = c.Assumptions
+			cb, _ := json.Marshal(cov)
+			os.WriteFile(*covOut, cb, 0o644)
 		}
-		b, _ := json.MarshalIndent(ev, "", " ")
-		os.MkdirAll(filepath.Join(verifDir, "evidence"), 0o755)
-		if err := os.WriteFile(filepath.Join(verifDir, "evidence", id+".json"), b, 0o644); err != nil {
-			die(2, "%v", err)
+		if !*noEvidence {
+			ev := map[string]any{
+				"property_id": id, "tier": *tier, "seed": seed, "level": c.Level,
+				"coverage": cov, "assumptions": c.Assumptions, "wall_s": wall, "violations": nViol,
+			}
+			b, _ := json.MarshalIndent(ev, "", " ")
+			os.MkdirAll(filepath.Join(verifDir, "evidence"), 0o755)
+			if err := os.WriteFile(filepath.Join(verifDir, "evidence", id+".json"), b, 0o644); err != nil {
+				die(2, "%v", err)
+			}
 		}
 	}
 	fmt.Printf("%s %s: %d runs, %d distinct non-trivial, %d interleavings, %d known-finding signatures, %d new; build %.0fs run %.0fs\n",
 		id, *tier, len(recs), len(keys), len(fps), len(knownHit), len(newSigs), buildS, runS)
 	return exit
+}
+
+// raceSig names a race by the functions of the two conflicting accesses.
+func raceSig(rep string) string {
+	var fns []string
+	lines := strings.Split(rep, "\n")
+	for i, l := range lines {
+		t := strings.TrimSpace(l)
+		if (strings.HasPrefix(t, "Write at") || strings.HasPrefix(t, "Read at") || strings.HasPrefix(t, "Previous write at") || strings.HasPrefix(t, "Previous read at")) && i+1 < len(lines) {
+			f := strings.TrimSpace(lines[i+1])
+			if k := strings.IndexByte(f, '('); k > 0 {
+				f = f[:k]
+			}
+			if k := strings.LastIndexByte(f, '/'); k >= 0 {
+				f = f[k+1:]
+			}
+			fns = append(fns, f)
+		}
+	}
+	sort.Strings(fns)
+	return strings.Join(fns, "+")
 }
 
 func flagSet(fs *flag.FlagSet, name string) bool {
